@@ -49,6 +49,18 @@ def reset_concurrency_limiter(token: Any) -> None:
     _concurrency_limiter.reset(token)
 
 
+def _is_resuming_interrupt(node: HyperNode, state: GraphState) -> bool:
+    """True when the caller supplied this interrupt's response (resume path).
+
+    A supplied response passes the interrupt as is: it is neither replaced by a
+    cached earlier response nor stored as if the handler had resolved it.
+    """
+    if not node.is_interrupt or node.name in state.node_executions:
+        return False
+    data_outputs = node.data_outputs
+    return bool(data_outputs) and all(o in state.values for o in data_outputs)
+
+
 async def run_superstep_async(
     graph: Graph,
     state: GraphState,
@@ -103,7 +115,7 @@ async def run_superstep_async(
 
         # Check cache before execution
         cache_key, cached_outputs = ("", None)
-        if cache is not None:
+        if cache is not None and not _is_resuming_interrupt(node, state):
             cache_key, cached_outputs = check_cache(node, inputs, cache)
 
         if cached_outputs is not None:
